@@ -324,6 +324,15 @@ impl chain::Listen for Gatekeeper {
             // Remove the outdated users from memory first, and then from the database while still holding the users lock,
             // so nobody can see (nor re-register) a user that is in one and not in the other.
             let mut registered_users = self.registered_users.lock().unwrap();
+            // A user may have renewed its subscription since the list was computed: check again now that we hold the lock.
+            let outdated_users = outdated_users
+                .into_iter()
+                .filter(|user_id| {
+                    registered_users.get(user_id).map_or(false, |info| {
+                        height >= info.subscription_expiry + self.expiry_delta
+                    })
+                })
+                .collect::<Vec<_>>();
             // Removing each outdated user in a loop is more efficient than retaining non-outdated users
             // because retaining would loop over all the available users which is always more than the outdated ones.
             for outdated_user in outdated_users.iter() {
